@@ -150,6 +150,7 @@ def _encode_contract(it, fv, args, kwargs):
 
 
 parse_abs = z3.Function("pointer_parse", z3.StringSort(), Py, Py, Py)
+parse_err = z3.Function("pointer_parse_refuses", z3.StringSort(), Py, Py, z3.BoolSort())
 
 
 @call_contract("jsonpath.pointer:JSONPointer._parse")
@@ -158,6 +159,8 @@ def _parse_contract(it, fv, args, kwargs):
     switches; the empty string has no tokens (RFC 6901 section 3)."""
     s_ = lib.T(it, args[1])
     ue, ud = lib.T(it, kwargs.get("unicode_escape", S.TRUE)), lib.T(it, kwargs.get("uri_decode", S.FALSE))
+    if getattr(it, "parse_may_raise", False) and it.branch(parse_err(Py.s(s_), ue, ud)):
+        it.raise_(mod("jsonpath.exceptions").JSONPointerError, "malformed pointer")
     r = parse_abs(Py.s(s_), ue, ud)
     it.assume(Py.is_tuple(r))
     it.assume(z3.Implies(Py.s(s_) == z3.StringVal(""), r == S.mk_tuple([])))
